@@ -47,9 +47,9 @@ theorem exec_total (sh : Shared) {i : Instr} (h1 : isCloseLock i = false) (h2 : 
 
 theorem wc_reachable {g : Bool} {s : Sys} (hr : Reachable g s) : ∀ t ∈ s.threads, WC t := by
   induction hr with
-  | init c n =>
+  | init clr c n =>
     intro t ht
-    simp only [Sys.init, List.mem_replicate] at ht
+    simp only [Sys.initCfg, List.mem_replicate] at ht
     rw [ht.2]; exact Or.inr (fun j hj => by cases hj)
   | @step s s' a hr hs ih =>
     rcases sysStep_cases hs with ⟨t, c, rfl, ht, _, rfl⟩ | ⟨t, i, rest, sh', push, evs, rfl, ht, he, _, rfl⟩
